@@ -5,7 +5,7 @@
    verified), [fo] over every outcome of decoding the filter parameter.
    Hence "for any raw URL string". *)
 From JV Require Import Model.Base Model.GoTime Gen.TypeGo Model.Schema Model.Value
-  Model.Url Proofs.C07Facts Proofs.C07Fields.
+  Model.Url Proofs.C07Facts Proofs.C07Fields Proofs.C07Include.
 
 (* parsing returns an error or a URL, never panics (the model's loops have no
    indexing or assertion left: the repaired code, see KNOWN_FINDINGS) *)
@@ -53,8 +53,24 @@ Theorem C07_field_selection : forall s su u,
 Proof. exact new_url_fields. Qed.
 Print Assumptions C07_field_selection.
 
-(* NOT PROVED here (correspondence + oracle only): the inclusion clause
-   outside the recorded finding. *)
+(* the inclusion clause where the recorded finding cannot occur: when every
+   requested path (sorted, duplicates and prefixes pruned) is valid nothing is
+   removed, the URL's inclusion paths are exactly those paths and each is a
+   chain of relationships that exists in the schema from the resource type
+   ([chain_ok]).  (Schemas without a type named "".) *)
+Theorem C07_include_all_valid_partial : forall s su rt p,
+  has_type s "" = false -> tname (get_type s rt) <> "" ->
+  let incs0 := prune_includes (isort String.ltb (su_include su)) in
+  Forall (fun q => words_valid s rt (split_char "." q) = true /\ split_char "." q <> []) incs0 ->
+  new_params s su rt = Ok p ->
+  p_include p = map (build_include s rt) incs0 /\
+  Forall (fun q => chain_ok s rt (split_char "." q) (build_include s rt q)) incs0.
+Proof. exact new_params_include_all_valid. Qed.
+Print Assumptions C07_include_all_valid_partial.
+
+(* NOT PROVED here (correspondence + oracle only): which requested paths the
+   pruning keeps, and the inclusion clause when some requested path is
+   invalid (outside the recorded finding). *)
 
 Example c07_rules_example :
   sorting_rules (mkType "t" [("a", mkAttr "a" 1 false); ("b", mkAttr "b" 2 false)] [])
